@@ -3,6 +3,7 @@ package main
 import (
 	"go/ast"
 	"go/types"
+	"strings"
 
 	"golang.org/x/tools/go/cfg"
 )
@@ -29,4 +30,71 @@ func containsNode(root ast.Node, n ast.Node) bool {
 		return !found
 	})
 	return found
+}
+
+// calledOnlyFrom returns the functions of internal/server that are reached only through the seed
+// functions: the seeds themselves, plus every function all of whose static call sites (in the whole
+// repository) lie inside a function of the set (fixpoint). Used for roles that a helper inherits from its
+// only callers (a step of the log replayer extracted into a method is still the log replayer).
+func (p *Program) calledOnlyFrom(seeds ...string) map[*types.Func]bool {
+	return p.calledOnlyFromIn("internal/server", seeds...)
+}
+
+// calledOnlyFromIn is calledOnlyFrom for the functions of another package.
+func (p *Program) calledOnlyFromIn(pkgRel string, seeds ...string) map[*types.Func]bool {
+	key := pkgRel + ":" + strings.Join(seeds, ",")
+	if p.onlyFromCache == nil {
+		p.onlyFromCache = map[string]map[*types.Func]bool{}
+	}
+	if m, ok := p.onlyFromCache[key]; ok {
+		return m
+	}
+	set := map[*types.Func]bool{}
+	for _, fn := range p.AllFuncs(pkgRel) {
+		for _, sd := range seeds {
+			if fn.Obj.Name() == sd {
+				set[fn.Obj] = true
+			}
+		}
+	}
+	// callers: callee -> set of caller funcs (function values passed around count as a call from the referrer)
+	callers := map[*types.Func]map[*types.Func]bool{}
+	for _, rel := range p.RelPaths() {
+		for _, fn := range p.AllFuncs(rel) {
+			info := fn.Info()
+			ast.Inspect(fn.Decl.Body, func(n ast.Node) bool {
+				id, ok := n.(*ast.Ident)
+				if !ok {
+					return true
+				}
+				if f, ok := info.Uses[id].(*types.Func); ok && f != fn.Obj {
+					if callers[f] == nil {
+						callers[f] = map[*types.Func]bool{}
+					}
+					callers[f][fn.Obj] = true
+				}
+				return true
+			})
+		}
+	}
+	for changed := true; changed; {
+		changed = false
+		for _, fn := range p.AllFuncs(pkgRel) {
+			if set[fn.Obj] || len(callers[fn.Obj]) == 0 {
+				continue
+			}
+			all := true
+			for cl := range callers[fn.Obj] {
+				if !set[cl] {
+					all = false
+				}
+			}
+			if all {
+				set[fn.Obj] = true
+				changed = true
+			}
+		}
+	}
+	p.onlyFromCache[key] = set
+	return set
 }
